@@ -537,3 +537,158 @@ func c06Linear(p *fw.Poly, atom string) bool {
 	_, isC := q.IsConst()
 	return isC
 }
+
+// panicExceptionChecks: mechanised preconditions of entries of the C06.panic exception table. The entry is
+// only honoured while the check returns "".
+var panicExceptionChecks = map[string]func(p *fw.Program, pn *ssa.Panic) string{
+	"format/riff.aviParseChunkID|string|unreachable": c06AtoiDigitsOnly,
+}
+
+// c06AtoiDigitsOnly: the panic sits on the error arm of strconv.Atoi(s); every value s can take is a slice that a
+// dominating call of a local predicate accepted, and that predicate returns true only when every rune is an
+// ASCII digit: it calls nothing and compares the ranged rune with the constants '0' and '9'. (A two-character
+// ASCII digit string always parses.)
+func c06AtoiDigitsOnly(p *fw.Program, pn *ssa.Panic) string {
+	fn := pn.Parent()
+	var atoi *ssa.Call
+	for _, c := range fw.CallsIn(fn) {
+		if cal := c.Common().StaticCallee(); cal != nil && cal.String() == "strconv.Atoi" {
+			if call, ok := c.(*ssa.Call); ok {
+				atoi = call
+			}
+		}
+	}
+	if atoi == nil {
+		return "no strconv.Atoi call in the function"
+	}
+	// the predicate: closures of fn called with a string, returning bool
+	var preds []*ssa.Function
+	for _, c := range fw.CallsIn(fn) {
+		for _, cal := range resolveLocalCallees(c, fn) {
+			if cal.Parent() == fn && cal.Signature.Results().Len() == 1 && types.Identical(cal.Signature.Results().At(0).Type(), types.Typ[types.Bool]) {
+				preds = append(preds, cal)
+			}
+		}
+	}
+	if len(preds) == 0 {
+		return "no local digit predicate is called"
+	}
+	for _, pr := range preds {
+		has0, has9 := false, false
+		bad := ""
+		fw.EachInstr(pr, func(ins ssa.Instruction) {
+			switch x := ins.(type) {
+			case ssa.CallInstruction:
+				if _, isB := x.Common().Value.(*ssa.Builtin); !isB {
+					bad = "the digit predicate calls " + fw.CalleeName(x) + " (must be a plain ASCII range test)"
+				}
+			case *ssa.BinOp:
+				for _, o := range []ssa.Value{x.X, x.Y} {
+					if c, ok := o.(*ssa.Const); ok && c.Value != nil && c.Value.Kind() == constant.Int {
+						if v, ok := constant.Int64Val(c.Value); ok {
+							if v == '0' && (x.Op == token.GEQ || x.Op == token.LSS || x.Op == token.LEQ || x.Op == token.GTR) {
+								has0 = true
+							}
+							if v == '9' && (x.Op == token.GEQ || x.Op == token.LSS || x.Op == token.LEQ || x.Op == token.GTR) {
+								has9 = true
+							}
+						}
+					}
+				}
+			}
+		})
+		if bad != "" {
+			return bad
+		}
+		if !has0 || !has9 {
+			return "the digit predicate does not compare each rune with '0' and '9'"
+		}
+	}
+	return ""
+}
+
+// ---------------------------------------------------------------------------
+// C06.typednil: no nil pointer is handed out inside a non-nil interface
+//
+// A nil *T boxed into an interface is != nil: callers that test the interface ("if br != nil") go on and
+// dereference it. Rule: in the decode API and decoder packages, a value converted to an interface that is
+// returned, or passed on as an argument, is never a pointer that is the nil constant on some path (constant nil,
+// a phi with a nil edge, or a local pointer variable whose only other stores are on other paths).
+
+func c06TypedNil(r *fw.Run, p *fw.Program) {
+	ru := r.Rule("C06.typednil", "in pkg/decode, pkg/bitio, internal/bitiox and the decoders, a pointer converted to an interface result is never the nil constant on some path (a typed nil inside an interface passes the caller's `!= nil` test and is dereferenced)", 50)
+	var mayNil func(v ssa.Value, seen map[ssa.Value]bool) bool
+	mayNil = func(v ssa.Value, seen map[ssa.Value]bool) bool {
+		if seen[v] {
+			return false
+		}
+		seen[v] = true
+		switch x := v.(type) {
+		case *ssa.Const:
+			return x.IsNil()
+		case *ssa.Phi:
+			for _, e := range x.Edges {
+				if mayNil(e, seen) {
+					return true
+				}
+			}
+		case *ssa.UnOp:
+			if x.Op == token.MUL {
+				if al, ok := x.X.(*ssa.Alloc); ok && al.Referrers() != nil {
+					// spilled local: zero value unless every path stores first; flag when some store is nil or there is
+					// a path without a store (conservatively: no store dominates the load)
+					dominated := false
+					for _, rf := range *al.Referrers() {
+						if st, ok := rf.(*ssa.Store); ok && st.Addr == ssa.Value(al) {
+							if mayNil(st.Val, seen) {
+								return true
+							}
+							if precedesOnAllPaths(st, x) {
+								dominated = true
+							}
+						}
+					}
+					return !dominated
+				}
+			}
+		}
+		return false
+	}
+	for _, fn := range p.FqFunctions() {
+		pr := pkgRel(fn)
+		if !c06DecodePkg(pr) {
+			continue
+		}
+		ord := 0
+		fw.EachInstr(fn, func(ins ssa.Instruction) {
+			ret, ok := ins.(*ssa.Return)
+			if !ok {
+				return
+			}
+			for _, res := range ret.Results {
+				mi, ok := res.(*ssa.MakeInterface)
+				if !ok {
+					if phi, isPhi := res.(*ssa.Phi); isPhi {
+						for _, e := range phi.Edges {
+							if m2, ok := e.(*ssa.MakeInterface); ok {
+								mi = m2
+								if _, isPtr := mi.X.Type().Underlying().(*types.Pointer); isPtr && mayNil(mi.X, map[ssa.Value]bool{}) {
+									break
+								}
+							}
+						}
+					}
+					if mi == nil {
+						continue
+					}
+				}
+				if _, isPtr := mi.X.Type().Underlying().(*types.Pointer); !isPtr {
+					continue
+				}
+				ord++
+				key := fmt.Sprintf("%s|return#%d", fw.ShortFn(fn), ord)
+				ru.Check(!mayNil(mi.X, map[ssa.Value]bool{}), key, p.Rel(ret.Pos()), "boxed pointer is never the nil constant", "returns a "+shortType(mi.X.Type())+" that is nil on some path boxed into "+shortType(mi.Type())+": the interface is non-nil, a caller testing `!= nil` dereferences the nil pointer")
+			}
+		})
+	}
+}
